@@ -13,6 +13,18 @@ COMMON_NOTE = ("Trusted: Lean 4.33.0 kernel; axioms per theorem as printed by #p
 
 # property id -> dict(level, text, technique, note, design_ref)
 CLAIMED = {
+    "C07": dict(
+        level="proof",
+        text="Lean theorems about a model of the VM's frame chain and value-stack length (push_frame, handle_return, handle_throw, "
+             "handle_exception_at, the uncatchable branch of handle_error, JsObject::call/construct/Script::evaluate around them, as they "
+             "are after the fix commits): exec_spec (the loop invariant for every behaviour tree), balanced (ANY host entry — returning, "
+             "throwing with handlers at any depth or none, cut off by a limit at any depth, with any number of pending temporaries — "
+             "leaves frames and stack depth unchanged), balanced_refused, reusable (any sequence of entries). Tied to the code through "
+             "hooks: real depths after every host entry of generated histories, snapshots of the real frame chain checked against the "
+             "model's push_frame laws by the Lean driver, and a reuse-vs-fresh battery.",
+        technique="Lean 4 invariant proof by induction over behaviour trees + hook-based correspondence (vm_depths / vm_snapshot) on generated host-entry histories",
+        note="Needs the boa_verif hooks. Not modelled: environments, generator stack swapping, modules.",
+    ),
     "C06": dict(
         level="proof",
         text="Lean theorems about the polymorphic inline cache and its use by get_by_name: ic_capacity, megamorphic_latch, "
@@ -99,7 +111,7 @@ CLAIMED = {
 
 ALL = ["C%02d" % i for i in range(1, 21)]
 NOT_YET = "not claimed yet: model, correspondence and first theorem for this property are not built (see DESIGN.md §7 build order)"
-HOOK_COMMITS = ["ee8c1f4", "5c06b44"]
+HOOK_COMMITS = ["ee8c1f4", "5c06b44", "e155a04"]
 
 
 def manifest():
